@@ -32,6 +32,9 @@ mod server;
 mod state;
 mod store;
 mod util;
+#[cfg(feature = "verif-hooks")]
+#[doc(hidden)]
+pub mod verif;
 
 pub use crate::{metrics::Metrics, server::Server};
 
